@@ -17,7 +17,7 @@ MID_POOL = [3, 9, 10, 11, 20, 99, 100, 101, 200, 999, 1000, 1001, 2000, 9999, 10
 
 @st.composite
 def collection(draw, min_msgs=0, max_msgs=8, faults='some', rich=False, with_delete='maybe',
-               kinds=None):
+               kinds=None, create_anywhere=True, pad_ids=False):
     """-> {'docs': [roCreate, msg...] in ascending message-ID order, 'ro_id', 'mids'}
     Messages are drawn one after the other against the state the (real) running
     order has reached, so most of them apply; `faults` salts in failing ones."""
@@ -26,7 +26,12 @@ def collection(draw, min_msgs=0, max_msgs=8, faults='some', rich=False, with_del
     mids = sorted(draw(st.lists(st.sampled_from(MID_POOL), unique=True, min_size=n + 2, max_size=n + 2)))
     ro = draw(gen.running_order(min_stories=1, max_stories=4, max_items=3, rich=rich, simple_ids=not rich))
     root = ET.fromstring(ro['ro_xml'])
-    root.find('messageID').text = str(mids[0])
+    # the roCreate need not carry the lowest message ID of the collection
+    create_mid = mids[0]
+    if create_anywhere and draw(st.integers(0, 2)) == 0:
+        create_mid = mids.pop(draw(st.integers(0, len(mids) - 1)))
+        mids = [create_mid] + mids
+    root.find('messageID').text = str(create_mid)
     ro_xml = ET.tostring(root, encoding='unicode')
     docs = [ro_xml]
     sim = RunningOrder.from_string(ro_xml)
@@ -55,4 +60,16 @@ def collection(draw, min_msgs=0, max_msgs=8, faults='some', rich=False, with_del
                     sim += MosFile.from_string(text)
                 except Exception:
                     pass
+    if pad_ids:
+        # int() accepts surrounding whitespace and leading zeros: so must the ordering
+        out = []
+        for d in docs:
+            how = draw(st.sampled_from(['', '', 'space', 'newline', 'zeros']))
+            if how:
+                r = ET.fromstring(d)
+                m = r.find('messageID')
+                m.text = {'space': f' {m.text} ', 'newline': f'\n    {m.text}\n  ', 'zeros': '00' + m.text}[how]
+                d = ET.tostring(r, encoding='unicode')
+            out.append(d)
+        docs = out
     return {'docs': docs, 'ro_id': ro['ro_id'], 'has_delete': delete_at is not None}
